@@ -484,6 +484,7 @@ func runC11(c C11Case, cs *kit.CaseStats) error {
 	prev := ""
 	quiescent := false
 	rounds, reconnects := 0, 0
+	why := ""
 	for time.Since(start) < netBudget() {
 		time.Sleep(netTick)
 		rounds++
@@ -500,11 +501,30 @@ func runC11(c C11Case, cs *kit.CaseStats) error {
 				victim.Connect(h, 5*time.Second)
 			}
 		}
-		_, synced := victim.PeerState()
-		if changed || !live || !synced {
-			lastChange = time.Now()
+		// the honest peers must be connected and marked synced; a Byzantine peer
+		// that keeps failing stays "unsynced" for ever (the victim retries it
+		// once a second), which is not the victim's problem - but as long as one
+		// is still being worked on, the tip has to stay put for longer
+		honestSynced, allSynced := true, true
+		for _, p := range victim.S.Peers() {
+			if !p.Synced() {
+				allSynced = false
+				for _, h := range honest {
+					if p.Addr() == h.Addr() {
+						honestSynced = false
+					}
+				}
+			}
 		}
-		if time.Since(lastChange) >= netStable {
+		if changed || !live || !honestSynced {
+			lastChange = time.Now()
+			why = fmt.Sprintf("changed=%v live=%v honestSynced=%v", changed, live, honestSynced)
+		}
+		need := netStable
+		if !allSynced {
+			need = 3 * netStable
+		}
+		if time.Since(lastChange) >= need {
 			// give every active liar at least one shot at the settled victim
 			pendingRelay := false
 			for i, b := range byz {
@@ -520,7 +540,7 @@ func runC11(c C11Case, cs *kit.CaseStats) error {
 				quiescent = true
 				break
 			}
-			lastChange = time.Now().Add(-netStable + 400*time.Millisecond)
+			lastChange = time.Now().Add(-need + 500*time.Millisecond)
 			continue
 		}
 		if rounds%2 == 0 {
@@ -586,7 +606,11 @@ func runC11(c C11Case, cs *kit.CaseStats) error {
 		bt := nodeAt(tr, c.Byz[i].Tip)
 		if bt != nil && !bt.Valid() && b.Seen("blocks") > 0 {
 			cs.NonTrivial()
-			cs.Class("invalid-branch-requested")
+			for a := bt; a != nil; a = a.Parent {
+				if a.OwnInvalid {
+					cs.Class("invalid-branch-requested:" + a.Corrupt)
+				}
+			}
 		}
 		_, banned := victim.Store.BannedHost(b.IP)
 		if banned {
@@ -638,7 +662,7 @@ func runC11(c C11Case, cs *kit.CaseStats) error {
 		cs.Inconclusive("not-quiescent-within-budget")
 		if os.Getenv("VERIF_NET_DEBUG") != "" {
 			js, _ := json.Marshal(c)
-			fmt.Printf("NOT-QUIESCENT tip=%v honest=%v case=%s\n", tipName(T), H.Index(), js)
+			fmt.Printf("NOT-QUIESCENT why=%s reconnects=%d tip=%v honest=%v case=%s\n", why, reconnects, tipName(T), H.Index(), js)
 		}
 		return nil
 	}
@@ -660,8 +684,10 @@ func runC11(c C11Case, cs *kit.CaseStats) error {
 			}
 		}
 	}
-	for _, g := range []*kit.TNode{nodeAt(tr, c.GoodChild)} {
-		if g != nil && g.Valid() {
+	for i, bs := range c.Byz {
+		// (the valid child of the honest tip is on offer only through a peer that
+		// answers block requests from that branch)
+		if g := nodeAt(tr, c.GoodChild); g != nil && g.Valid() && bs.Tip == c.Honest && byz[i].Corr.RPC == "blocks" && byz[i].Corr.Kind == "other-branch" {
 			others = append(others, g.Ledger.State)
 		}
 	}
